@@ -169,6 +169,10 @@ pub fn apply(w: &mut RouterWorld, cfg: &Cfg, a: &Act) {
         Act::DiscPkt { c } => w.send(*c as usize, vec![Tx::Disconnect]),
         Act::Drop { c } => end_link(w, *c as usize, vec![LateEv::Disconnect, LateEv::Will], true),
         Act::DropLate { c } => end_link(w, *c as usize, vec![LateEv::Disconnect, LateEv::Will], false),
+        Act::DiscThenDrop { c } => {
+            w.send(*c as usize, vec![Tx::Disconnect]);
+            end_link(w, *c as usize, vec![LateEv::Disconnect, LateEv::Will], false);
+        }
         Act::Late { e } => {
             let i = *e as usize;
             if i < w.ended.len() {
@@ -613,6 +617,13 @@ fn enabled_c14(w: &RouterWorld, cfg: &Cfg, v: &mut Vec<(Act, u8)>) {
     let (p, s, m, n) = (0u8, 1u8, 2u8, 3u8);
     if live(w, p) && w.model.accepted.len() < 300 {
         v.push((Act::Pub { c: p, t: 0, qos: 1, retain: false, empty: false, props: 0 }, 0));
+        if cfg.topics.len() > 1 && cfg.variant == 0 {
+            // traffic for the misbehaving client's own (shared) subscription
+            v.push((Act::Pub { c: p, t: 1, qos: 0, retain: false, empty: false, props: 0 }, 0));
+        }
+    }
+    if live(w, m) && cfg.filters.len() > 1 && cfg.variant == 0 && !active_sub(w, m, &cfg.filters[1]) {
+        v.push((Act::Sub { c: m, f: 1, qos: 0 }, 0));
     }
     if live(w, s) && !w.clients[s as usize].unacked.is_empty() {
         v.push((Act::AckAll { c: s }, 0));
@@ -629,6 +640,7 @@ fn enabled_c14(w: &RouterWorld, cfg: &Cfg, v: &mut Vec<(Act, u8)>) {
             v.push((Act::DiscPkt { c: m }, 0));
             v.push((Act::Drop { c: m }, 0));
             v.push((Act::DropLate { c: m }, 0));
+            v.push((Act::DiscThenDrop { c: m }, 0));
             if w.outbox.is_empty() {
                 v.push((Act::Connect { c: m, clean: cfg.variant != 1, will: 0 }, 0));
             }
